@@ -47,14 +47,15 @@ then using where with Some None true false negb andb orb Z Q xf XFin XMInf XPInf
 xgt xeqb xneb xisnan xmin2 xmax2 vec ivec bvec vlen zip2 vv2 np_nanmin np_nanmax iv_min iv_max np_nansum np_nanmean b_sum
 np_repeat np_repeat_s np_arange np_zeros v_setmask pick v_mask norm_index v_get v_take set_at v_store v_fill v_assign mat
 mkMat mcols mrows chunks v_reshape v_reshape_m1 columns m_T m_flatten m_col bm_sum0 for_list for_range omap omap2 vol
-np_nanmin3 np_nanmax3 shape3 vs sv v_ofz ozip ozip2 argsort np row col prange njit map repeat list option nat bool
+np_nanmin3 np_nanmax3 shape3 vs sv v_ofz ozip ozip2 argsort mat2 m2s xminimum xmaximum np_clip2 np_min1 np_max1
+np_min2 np_max2 np_percentile self_percentile np row col prange njit map repeat list option nat bool
 fst snd""".split())
 
 F_CMP = {ast.Lt: "xlt", ast.Gt: "xgt", ast.LtE: "xle", ast.GtE: "xge", ast.Eq: "xeqb", ast.NotEq: "xneb"}
 Z_CMP = {ast.Lt: "<?", ast.Gt: ">?", ast.LtE: "<=?", ast.GtE: ">=?", ast.Eq: "=?"}
 F_OP = {ast.Add: "xadd", ast.Sub: "xsub", ast.Mult: "xmul", ast.Div: "xdiv"}
 Z_OP = {ast.Add: "+", ast.Sub: "-", ast.Mult: "*"}
-COQ_TYPE = {"F": "xf", "I": "Z", "V": "vec", "IV": "ivec", "BV": "bvec", "FM": "mat xf", "BM": "mat bool"}
+COQ_TYPE = {"F": "xf", "I": "Z", "V": "vec", "IV": "ivec", "BV": "bvec", "FM": "mat xf", "BM": "mat bool", "M2": "mat2"}
 SIG_TYPES = {"f4": "F", "f4[:]": "V", "f4[:, :, :]": "VOL"}
 
 
@@ -91,6 +92,9 @@ class Tr:
         self.ntmp = 0
         self.uses_argsort = False
         self.in_body = False
+        self.uses_percentile = False
+        self.method_mode = False
+        self.self_attrs = {}    # "self._x" -> (coq text, type): attributes of the instance a method may read
 
     def where(self, node):
         return f"{self.fname}:{getattr(node, 'lineno', '?')}"
@@ -175,6 +179,8 @@ class Tr:
                 return ("XNaN", "F")
             if is_np(e, "inf"):
                 return ("XPInf", "F")
+            if isinstance(e.value, ast.Name) and e.value.id == "self" and ("self." + e.attr) in self.self_attrs:
+                return self.self_attrs["self." + e.attr]
             if e.attr == "T":
                 t, ty = self.expr(e.value)
                 if ty in ("FM", "BM"):
@@ -239,6 +245,8 @@ class Tr:
                     fail(self.where(node), f"int / int is not supported: {ast.unparse(node)}")
                 return (f"({a[0]} {zsym} {b[0]})%Z", "I")
             return (f"({fn} {self.as_f(node, a)} {self.as_f(node, b)})", "F")
+        if a[1] == "M2" and sb and vty == "V":
+            return (f"(m2s {fn} {a[0]} {self.as_f(node, b)})", "M2")
         if sb:
             return (f"(vs {fn} {self.as_v(node, a)} {self.as_f(node, b)})", vty)
         if sa:
@@ -281,6 +289,23 @@ class Tr:
                 if ty == "IV":
                     return (self.hoist(f"iv_{n[3:]} {t}"), "I")
                 fail(self.where(e), f"np.{n} of a value of type {ty}")
+            if n in ("min", "max") and len(e.args) == 1 and not kw:
+                t, ty = self.expr(e.args[0])
+                if ty == "M2":
+                    return (self.hoist(f"np_{n}2 {t}"), "F")
+                fail(self.where(e), f"np.{n} of a value of type {ty}")
+            if n == "copy" and len(e.args) == 1 and not kw:
+                t, ty = self.expr(e.args[0])
+                if ty == "M2":
+                    return (t, "M2")          # value semantics: a copy is the same value
+                fail(self.where(e), f"np.copy of a value of type {ty}")
+            if n == "percentile" and len(e.args) == 2 and not kw:
+                t, ty = self.expr(e.args[0])
+                q = self.as_f(e, self.expr(e.args[1]))
+                if ty == "M2":
+                    self.uses_percentile = True
+                    return (f"(np_percentile {t} {q})", "F")
+                fail(self.where(e), f"np.percentile of a value of type {ty}")
             if n == "nanmean" and len(e.args) == 1 and not kw:
                 t, ty = self.expr(e.args[0])
                 if ty == "V":
@@ -367,6 +392,8 @@ class Tr:
         if value is not None and ty in ("V", "IV", "BV") and (
                 isinstance(value, ast.BinOp) or np_call(value, "repeat") or np_call(value, "zeros")):
             self.fresh.add(name)
+        if value is not None and ty == "M2" and np_call(value, "copy"):
+            self.fresh.add(name)
 
     def local_array(self, node, name):
         if not (isinstance(name, ast.Name) and self.env.get(name.id) in ("V", "IV", "BV")) or name.id in self.frozen:
@@ -412,6 +439,25 @@ class Tr:
         if isinstance(s, ast.Expr) and isinstance(s.value, ast.Constant) and isinstance(s.value.value, str):
             return self.block(rest, end)
         self.pre = []
+        if isinstance(s, ast.Return) and self.method_mode:
+            if rest or s.value is None:
+                fail(self.where(s), "statements after return / empty return")
+            t, ty = self.expr(s.value)
+            if ty != "M2":
+                fail(self.where(s), f"the method returns a value of type {ty}")
+            return self.wrap(self.pre, f"Some {t}")
+        if isinstance(s, ast.Expr) and self.method_mode and np_call(s.value, "clip", 3):
+            # np.clip(x, lo, hi, out=x) on a fresh local copy: x is rebound to the clipped array
+            c = s.value
+            kw = {k.arg: k.value for k in c.keywords}
+            x = c.args[0]
+            if not (isinstance(x, ast.Name) and self.env.get(x.id) == "M2" and x.id in self.fresh and list(kw) == ["out"]
+                    and isinstance(kw["out"], ast.Name) and kw["out"].id == x.id):
+                fail(self.where(s), f"np.clip not of the form np.clip(x, lo, hi, out=x) on a local copy: {ast.unparse(s)}")
+            lo = self.as_f(s, self.expr(c.args[1]))
+            hi = self.as_f(s, self.expr(c.args[2]))
+            pre = self.pre
+            return self.wrap(pre, f"let {x.id} := (np_clip2 {x.id} {lo} {hi}) in\n" + self.block(rest, end))
         if isinstance(s, ast.Assign) and len(s.targets) == 1:
             tgt = s.targets[0]
             if isinstance(tgt, ast.Name):
@@ -753,6 +799,54 @@ def translate_kernel(path, src, tree, cls_name, name, params, ret_sig, eta_param
     return text, (path, f"lines {fn.lineno}-{fn.end_lineno} ({cls_name}.{name})", sha1_of(seg))
 
 
+def translate_normalize(path, src, tree):
+    """Ambiguity.normalize_with_percentile(self, ambiguity): plain numpy on the whole 2-D map; np.percentile is a
+    PARAMETER of the generated function (its contract -- linear interpolation between order statistics -- is a hypothesis
+    of the theorem), self._percentile a parameter too"""
+    cls = [n for n in tree.body if isinstance(n, ast.ClassDef) and n.name == "Ambiguity"]
+    fns = [n for n in cls[0].body if isinstance(n, ast.FunctionDef) and n.name == "normalize_with_percentile"] if cls else []
+    if len(fns) != 1:
+        fail(path, f"{len(fns)} definitions of Ambiguity.normalize_with_percentile")
+    fn = fns[0]
+    a = fn.args
+    if fn.decorator_list or [x.arg for x in a.args] != ["self", "ambiguity"] or a.vararg or a.kwarg or a.kwonlyargs \
+            or a.posonlyargs or a.defaults:
+        fail(f"{path}:{fn.lineno}", "unexpected signature / decorator of normalize_with_percentile")
+    for n in ast.walk(fn):
+        if isinstance(n, (ast.Global, ast.Nonlocal, ast.Lambda, ast.FunctionDef, ast.Try, ast.With, ast.While, ast.For)) \
+                and n is not fn:
+            fail(f"{path}:{n.lineno}", f"{type(n).__name__} inside normalize_with_percentile")
+        if isinstance(n, ast.Attribute) and isinstance(n.value, ast.Name) and n.value.id == "self" \
+                and not isinstance(n.ctx, ast.Load):
+            fail(f"{path}:{n.lineno}", "normalize_with_percentile assigns an attribute of self")
+    tr = Tr(path)
+    tr.method_mode = True
+    tr.in_body = True
+    tr.env["ambiguity"] = "M2"
+    tr.frozen.add("ambiguity")
+    tr.self_attrs["self._percentile"] = ("self_percentile", "F")
+    stmts = list(fn.body)
+    if not tr_terminates(stmts):
+        fail(f"{path}:{fn.lineno}", "normalize_with_percentile can fall off its end without a return")
+    body = tr.block(stmts, "None")
+    text = ("(* Ambiguity.normalize_with_percentile(self, ambiguity); np.percentile and self._percentile are parameters *)\n"
+            "Definition normalize_with_percentile (np_percentile : mat2 -> xf -> xf) (self_percentile : xf) (ambiguity : mat2)\n"
+            f"  : option mat2 :=\n{indent(body)}.\n\n")
+    seg = "\n".join(src.splitlines()[fn.lineno - 1:fn.end_lineno])
+    # self._percentile is the class constant _PERCENTILE, set once in __init__
+    inits = [n for n in cls[0].body if isinstance(n, ast.FunctionDef) and n.name == "__init__"]
+    sets = [n for n in ast.walk(cls[0]) if isinstance(n, ast.Attribute) and isinstance(n.ctx, ast.Store)
+            and n.attr == "_percentile"]
+    if len(inits) != 1 or len(sets) != 1 or not any(same(st, "self._percentile = self._PERCENTILE") for st in inits[0].body):
+        fail(path, "self._percentile is not set exactly once, as `self._percentile = self._PERCENTILE` in __init__")
+    return text, (path, f"lines {fn.lineno}-{fn.end_lineno} (Ambiguity.normalize_with_percentile)", sha1_of(seg))
+
+
+def tr_terminates(stmts):
+    stmts = [s for s in stmts if not (isinstance(s, ast.Expr) and isinstance(s.value, ast.Constant))]
+    return bool(stmts) and isinstance(stmts[-1], ast.Return)
+
+
 def wrap_open(self, inner):
     """a prelude line: the hoisted partial operations stay open (closed at the end of the definition)"""
     return "".join(self.pre) + inner
@@ -782,7 +876,13 @@ if cv.attrs.get("type_measure", "min") == "max":
     cost_volume = -cost_volume
 """
 CALLS = {
-    "Ambiguity": ORIENT + "ambiguity = self.compute_ambiguity(cost_volume, self._eta_min, self._eta_max, self._eta_step)",
+    "Ambiguity": ORIENT + """
+ambiguity = self.compute_ambiguity(cost_volume, self._eta_min, self._eta_max, self._eta_step)
+if self._normalization:
+    ambiguity = self.normalize_with_percentile(ambiguity)
+ambiguity = 1 - ambiguity
+disp, cv = self.allocate_confidence_map(self._indicator, ambiguity, disp, cv)
+""",
     "Risk": ORIENT + """
 _, sampled_ambiguity = ambiguity_.compute_ambiguity_and_sampled_ambiguity(cost_volume, self._eta_min, self._eta_max, self._eta_step)
 risk_max, risk_min = self.compute_risk(cost_volume, sampled_ambiguity, self._eta_min, self._eta_max, self._eta_step)
@@ -854,6 +954,9 @@ def translate():
         text, s = translate_kernel(p_amb, src, tree, "Ambiguity", name, [("cv", "VOL")] + eta_sig, ret, ETA)
         body += text
         sources.append(s)
+    text, s = translate_normalize(p_amb, src, tree)
+    body += text
+    sources.append(s)
     check_call_site(p_amb, tree, "Ambiguity")
     p_risk = os.path.join(d, "risk.py")
     src, tree = parse_module(p_risk)
